@@ -259,10 +259,10 @@ V = "enc-variants"
 known("KF-C13-01", "C13", V, r"DisableHTMLEscape~plain", r"members-reordered", r".*",
       'map[string]T with keys "<x" and "a": member order differs between Marshal and DisableHTMLEscape', "same root cause as KF-C01-ORDER (members sorted by escaped key bytes, and the escaping depends on the option)",
       "other pure re-orderings of members under DisableHTMLEscape", "see KF-C01-ORDER")
-known("KF-C13-02", "C13", V, r"strip\(Colorize.*", r"members-reordered", r".*",
+known("KF-C13-02", "C13", V, r"strip\((Debug\+)?Colorize.*", r"members-reordered", r".*",
       'map[uint]uint32{1:..,18446744071562067968:..}: Colorize(scheme) emits the members in another order', "internal/encoder/vm_color*/ map encoding sorts the coloured key bytes (markers included)",
       "other pure re-orderings of members under Colorize", "sorting happens after key encoding")
-known("KF-C13-03", "C13", V, r"(strip\(Colorize.*|DisableHTMLEscape~plain)", r"bytes-differ:inside-string", r"feature:(string-opt-float-or-string|tags-zoo)",
+known("KF-C13-03", "C13", V, r"(strip\((Debug\+)?Colorize.*|DisableHTMLEscape~plain)", r"bytes-differ:inside-string", r"feature:(string-opt-float-or-string|tags-zoo)",
       'struct{Y string `json:",string"`} with Colorize: the markers are JSON-escaped inside the outer quotes; Tags key "<a&b>" under DisableHTMLEscape', "vm_color string-tag opcodes colour the inner value before quoting; struct keys are escaped at compile time",
       "other differences inside ,string-quoted strings / HTML-special struct keys", "rare options")
 known("KF-C13-04", "C13", V, None, r"(bytes-differ:.+|panic:.+|variant-error|members-differ|members-reordered|variant-not-json|excessive-allocation)", r"(.* @ )?feature:(ptr-to-marshaler|array1-ptr-shaped-elem|nilable-marshalerV|marshalerP-by-value|tags-zoo|ptr2\+|struct-ptr-shaped|mapkey-marshaler|embedded-structof|embedded-conflicts)",
